@@ -207,6 +207,14 @@ func runC05(e *core.Env) {
 		g.K.LocAbsolute = e.Choose("gen", 2, "locabs") == 1
 		g.K.LocQuery = e.Choose("gen", 2, "locq") == 1
 		g.K.LocChanges = e.Choose("gen", 3, "locchg") == 2
+		g.K.LocRelocate = e.Choose("gen", 4, "locreloc") == 3
+		// the destination may have a mirror configured (reads go there first; an upload never does)
+		if e.Choose("gen", 4, "mirror") == 3 {
+			w.AddReg("mirror.test")
+			w.Host("tgt.test").Mirrors = []string{"mirror.test"}
+			sample["destination_has_a_mirror"] = true
+			e.Probe("destination-with-mirror")
+		}
 		g.K.PartialEvery = []int{0, 0, 1, 2, 3}[e.Choose("gen", 5, "partial")]
 		// a registry may insist on its minimum (not together with partial acceptance, where it is the registry
 		// itself that makes chunks short)
@@ -289,6 +297,9 @@ func runC05(e *core.Env) {
 		}
 		if g.K.PutKeepsThenFails > 0 && patches > 0 {
 			e.Probe("resumed-after-cut-put")
+		}
+		if g.K.LocRelocate && patches > 1 {
+			e.Probe("session-relocated-mid-upload")
 		}
 	}
 	simrt.Event("BlobPut returned %v digest=%s size=%d", err, short(dOut.Digest.String()), dOut.Size)
